@@ -40,13 +40,19 @@ def brk(msg, node=None):
 def clang_flags():
     flags = ['-std=c++14', '-DNDEBUG', '-DWB_WITH_ZLIB', '-DWB_USE_FP_EXCEPTIONS', '-DVTU11_ENABLE_ZLIB',
              '-I%s/include' % REPO, '-I%s/tests' % REPO]
-    for d in ('%s/_build/include' % REPO, os.environ.get('GWB_CONFIG_INC', '/nonexistent')):
+    cands = ['%s/_build/include' % REPO, os.environ.get('GWB_CONFIG_INC', '/nonexistent'), '/var/tmp/gwbv-config/include']
+    for d in cands:
         if os.path.exists(d + '/world_builder/config.h'):
             flags.append('-I' + d)
-            break
-    else:
-        raise ExtractionBreak('no generated config.h found (need %s/_build/include or GWB_CONFIG_INC)' % REPO)
-    return flags
+            return flags
+    # generated header missing: run the cmake *configure* step only, in scratch space
+    r = subprocess.run(['cmake', '-G', 'Ninja', '-S', REPO, '-B', '/var/tmp/gwbv-config', '-DWB_ENABLE_TESTS=OFF',
+                        '-DWB_ENABLE_PYTHON=OFF', '-DWB_ENABLE_HELPER_TARGETS=OFF', '-DWB_MAKE_FORTRAN_WRAPPER=OFF'],
+                       capture_output=True, text=True)
+    if os.path.exists('/var/tmp/gwbv-config/include/world_builder/config.h'):
+        flags.append('-I/var/tmp/gwbv-config/include')
+        return flags
+    raise ExtractionBreak('no generated config.h found and cmake configure failed: %s' % r.stderr[-500:])
 
 
 def parse_docs(s):
